@@ -81,7 +81,7 @@ def _tiny_workload(r, max_len, tries=60):
 def systematic(tier):
     """Every single split point of a few fixed streams per tier."""
     from simkit import rng
-    n = 12 if tier == 'quick' else 200
+    n = 12 if tier == 'quick' else 120
     out = []
     for j in range(n):
         r = rng.rng_for('C05-sweep', rng.verif_seed(), j)
@@ -92,19 +92,19 @@ def systematic(tier):
                                'prewrap': bool((j // 4) % 2)},
                     'steps': []})
     # every partition of short streams (exhaustive): tiny values of tiny types
-    m = 16 if tier == 'quick' else 300
+    m = 16 if tier == 'quick' else 160
     for j in range(m):
         r = rng.rng_for('C05-partitions', rng.verif_seed(), j)
-        w = _tiny_workload(r, 11 if tier == 'quick' else 14)
+        w = _tiny_workload(r, 11 if tier == 'quick' else 13)
         kind = ['file', 'pipe', 'file'][j % 3]
-        out.append({'check': ID, 'workload': w, 'partitions': True, 'timeout_s': 1800, 'max_len': 11 if tier == 'quick' else 14,
+        out.append({'check': ID, 'workload': w, 'partitions': True, 'timeout_s': 1800, 'max_len': 11 if tier == 'quick' else 13,
                     'close_with_last': bool(j % 2),
                     'config': {'kind': kind, 'threshold': None if kind == 'file' else 8192, 'prewrap': False},
                     'steps': []})
     # every placement of empty polls, would-block reads and short reads over every partition of very
     # short streams: per byte boundary one of {join, split, split + second empty poll, split with a
     # would-block read while the data is there, split with a short read, short read then empty poll}
-    m2 = 24 if tier == 'quick' else 160
+    m2 = 24 if tier == 'quick' else 60
     for j in range(m2):
         r = rng.rng_for('C05-fault-partitions', rng.verif_seed(), j)
         w = _tiny_workload(r, 6 if tier == 'quick' else 8)
